@@ -92,6 +92,10 @@ pub fn jobs(thorough: bool) -> (Vec<Job>, Vec<CrateSpec>) {
             }
             for i in 0..all.len() {
                 v.push(all.iter().enumerate().filter(|(j, _)| *j != i).map(|(_, x)| x.clone()).collect());
+                // every pair of features (2-way interaction coverage)
+                for j in (i + 1)..all.len() {
+                    v.push(vec![all[i].clone(), all[j].clone()]);
+                }
             }
             v
         };
@@ -103,10 +107,20 @@ pub fn jobs(thorough: bool) -> (Vec<Job>, Vec<CrateSpec>) {
                 continue;
             }
             let ex = !s.examples.is_empty() && s.examples.iter().any(|(_, req)| req.iter().all(|r| set.contains(r)));
-            out.push(Job { krate: s.name.clone(), features: Some(set), all_features: false, examples: ex });
+            // the library alone (building examples would pull in dev-dependencies, whose features
+            // unify with the crate's own and can mask a missing cfg gate)
+            out.push(Job { krate: s.name.clone(), features: Some(set.clone()), all_features: false, examples: false });
+            if ex {
+                out.push(Job { krate: s.name.clone(), features: Some(set), all_features: false, examples: true });
+            }
         }
-        out.push(Job { krate: s.name.clone(), features: None, all_features: false, examples: !s.examples.is_empty() });
-        out.push(Job { krate: s.name.clone(), features: None, all_features: true, examples: !s.examples.is_empty() });
+        for ex in [false, true] {
+            if ex && s.examples.is_empty() {
+                continue;
+            }
+            out.push(Job { krate: s.name.clone(), features: None, all_features: false, examples: ex });
+            out.push(Job { krate: s.name.clone(), features: None, all_features: true, examples: ex });
+        }
     }
     (out, specs)
 }
@@ -124,7 +138,7 @@ pub fn run_job(j: &Job, target_dir: &str) -> (bool, String) {
         }
     }
     if j.examples {
-        cmd.args(["--lib", "--examples"]);
+        cmd.arg("--examples");
     } else {
         cmd.arg("--lib");
     }
@@ -193,7 +207,7 @@ pub fn run(ctx: &'static Ctx) -> (&'static str, Value, Vec<&'static str>) {
             .reduce(Stats::new, Stats::merge)
     });
     let cov = stats.coverage(
-        "features derived from the four manifests ([features] keys + optional dependencies); thorough = the complete powerset per crate (model 2^3, decode 2^2, data 2^11 incl. verif-hooks, facade 2^3), quick = full powersets of the small crates and, for nexrad-data, the named-feature powerset + every optional dependency alone and on top of the named features + every all-but-one set; plus default and --all-features; examples are checked whenever their required-features are enabled. Oracle = exit status of `cargo check --offline`. non-trivial = >= 2 features enabled",
+        "features derived from the four manifests ([features] keys + optional dependencies); thorough = the complete powerset per crate (model 2^3, decode 2^2, data 2^11 incl. verif-hooks, facade 2^3), quick = full powersets of the small crates and, for nexrad-data, the named-feature powerset + every optional dependency alone and on top of the named features + every pair of features + every all-but-one set; the library is always checked alone (--lib) and the examples in a separate invocation, because dev-dependency feature unification can mask a missing cfg gate; plus default and --all-features; examples are checked whenever their required-features are enabled. Oracle = exit status of `cargo check --offline`. non-trivial = >= 2 features enabled",
         thorough,
         json!({"crates": specs.iter().map(|s| json!({"name": s.name, "named": s.named, "optional": s.optional, "examples": s.examples.iter().map(|e| e.0.clone()).collect::<Vec<_>>()})).collect::<Vec<_>>(), "invocations": js.len(), "parallel_target_dirs": workers}),
     );
